@@ -11,9 +11,12 @@
 import ClairModel.Proofs.Cpe
 import ClairModel.Proofs.CpePattern
 import ClairModel.Proofs.CpeBind
+import ClairModel.Proofs.CpeGrammar
+import ClairModel.Proofs.CpeClean
+import ClairModel.Proofs.CpeFS
 
 namespace ClairModel.Props.C19
-open ClairModel ClairModel.Cpe ClairModel.CpeTypes
+open ClairModel ClairModel.Cpe ClairModel.CpeTypes ClairModel.CpeSpec
 
 /-! ## The regenerated tables -/
 
@@ -133,17 +136,34 @@ theorem equal_iff_superset_and_subset (rs : List Rel) :
 -/
 
 /-- `patCompare` is the glob semantics of the matching specification (`*` any
-    sequence, `?` one character or none, case-insensitive) for every source and
-    target without quoted characters, provided what remains of the source
-    between its leading and trailing wildcards has no further `*` or `?`
-    (`validate` guarantees that for a value string). -/
-theorem pattern_matches_spec_partial (s t : Str) (hs : 92 ∉ s) (ht : 92 ∉ t) (hc : coreClean s) :
+    sequence, `?` one character or none, case-insensitive) for every source
+    value string that `validate` accepts and every target, when neither has a
+    quoted character. -/
+theorem pattern_matches_spec_partial (s t : Str) (hv : validate s = true) (hs : 92 ∉ s) (ht : 92 ∉ t) :
     patCompare s t = CpeSpec.globMatches s t :=
-  patCompare_eq_spec s t hs ht hc
+  patCompare_eq_spec s t hs ht (validate_coreClean s hv hs)
 
-/-- The hypothesis is satisfiable: `?oo*` against `Foobar`. -/
+/-- The same at the level of `Compare`: a set source with a wildcard against a
+    set target without one is SUPERSET exactly when the pattern matches, else
+    DISJOINT (values without quoted characters). -/
+theorem compare_pattern_partial (s t : Value) (hs : s.kind = .set) (ht : t.kind = .set)
+    (hsw : hasWildcard s.v = true) (htw : hasWildcard t.v = false) (hv : validate s.v = true)
+    (h1 : 92 ∉ s.v) (h2 : 92 ∉ t.v) :
+    cmpAttr s t = if CpeSpec.globMatches s.v t.v then .superset else .disjoint := by
+  rw [cmpAttr_eq_spec, ← pattern_matches_spec_partial s.v t.v hv h1 h2]
+  simp [specAttr, CpeSpec.attrOut, hs, ht, hsw, htw]
+
+/-- A set source without wildcard against a set target without wildcard is
+    EQUAL exactly when the two strings are equal up to ASCII case. -/
+theorem compare_plain (s t : Value) (hs : s.kind = .set) (ht : t.kind = .set)
+    (hsw : hasWildcard s.v = false) (htw : hasWildcard t.v = false) :
+    cmpAttr s t = if lower s.v = lower t.v then .equal else .disjoint := by
+  rw [cmpAttr_eq_spec]
+  simp [specAttr, CpeSpec.attrOut, hs, ht, hsw, htw, equalFold]
+
+/-- The hypotheses are satisfiable: `?oo*` against `Foobar`. -/
 example : patCompare [63, 111, 111, 42] [70, 111, 111, 98, 97, 114] = true := by decide
-example : coreClean [63, 111, 111, 42] := by unfold coreClean; decide
+example : validate [63, 111, 111, 42] = true := by decide
 
 /-- A quoted character of the target counts as two for `?`: `1?` does not
     match `1\.` although `?` stands for the one character `.`. -/
@@ -223,6 +243,136 @@ theorem fs_roundtrip_empty_counterexample :
     valid (nameWithVendor ⟨.set, []⟩) = .ok ∧
       unbindFS (bindFS (nameWithVendor ⟨.set, []⟩)) = some (nameWithVendor ⟨.unset, []⟩) := by
   decide
+
+/-! ## What the unbinders accept -/
+
+/-- `validate` accepts exactly the value strings of `CpeSpec.ValueGrammar`:
+    printable ASCII without space, not the lone `*`, not the lone quoted
+    hyphen, of the form  [`*` | `?`…] body [`*` | `?`…]  where the body is made
+    of unquoted letters, digits, underscores and of quoted characters. -/
+theorem validate_accepts_iff (s : Str) : validate s = true ↔ CpeSpec.ValueGrammar s :=
+  validate_iff_grammar' s
+
+/-- Every formatted string of the naming specification's grammar
+    (`CpeSpec.FormattedString`) is accepted by `UnbindFS`; the name it yields is
+    valid and binds back to the very same string. -/
+theorem spec_formatted_string_accepted (s : Str) (h : CpeSpec.FormattedString s) :
+    ∃ w, unbindFS s = some w ∧ bindFS w = s ∧ valid w = .ok :=
+  formattedString_accepted s h
+
+/-- The same through `Unbind`. -/
+theorem spec_formatted_string_accepted_unbind (s : Str) (h : CpeSpec.FormattedString s) :
+    ∃ w, unbind s = some w ∧ bindFS w = s := by
+  obtain ⟨w, hw, hb, _⟩ := formattedString_accepted s h
+  obtain ⟨part, rest, _, _, _, _, hs⟩ := h
+  refine ⟨w, ?_, hb⟩
+  have h22 : Gen.Cpe.cpe22Prefix.isPrefixOf s = false := by
+    rw [hs]; simp [Gen.Cpe.cpe22Prefix, List.isPrefixOf]
+  have h23 : Gen.Cpe.cpe23Prefix.isPrefixOf s = true := by
+    rw [hs]; simp [Gen.Cpe.cpe23Prefix, List.isPrefixOf]
+  simp only [unbind, h22, h23, Bool.false_eq_true, if_false, if_true]
+  exact hw
+
+/-
+  Full statement (false of the unchanged code): (unbindFS s).isSome ↔ FormattedString s.
+  The unbinder is more lenient in six ways; each is shown on a witness below
+  (and replayed on the implementation by the harness as a listed finding).
+-/
+
+/-- `cpe:2.3:a:b` -/
+def wFewer : Str := [99, 112, 101, 58, 50, 46, 51, 58, 97, 58, 98]
+/-- `cpe:2.3:a::c:*:*:*:*:*:*:*:*` -/
+def wEmpty : Str := [99, 112, 101, 58, 50, 46, 51, 58, 97, 58, 58, 99, 58, 42, 58, 42, 58, 42, 58, 42, 58, 42, 58, 42, 58, 42, 58, 42]
+/-- `cpe:2.3:a:b!c:*:*:*:*:*:*:*:*:*` -/
+def wUnquoted : Str := [99, 112, 101, 58, 50, 46, 51, 58, 97, 58, 98, 33, 99, 58, 42, 58, 42, 58, 42, 58, 42, 58, 42, 58, 42, 58, 42, 58, 42, 58, 42]
+/-- `cpe:2.3:a:\b:*:*:*:*:*:*:*:*:*` -/
+def wQuoted : Str := [99, 112, 101, 58, 50, 46, 51, 58, 97, 58, 92, 98, 58, 42, 58, 42, 58, 42, 58, 42, 58, 42, 58, 42, 58, 42, 58, 42, 58, 42]
+/-- `cpe:2.3:a:??:*:*:*:*:*:*:*:*:*` -/
+def wSpecial : Str := [99, 112, 101, 58, 50, 46, 51, 58, 97, 58, 63, 63, 58, 42, 58, 42, 58, 42, 58, 42, 58, 42, 58, 42, 58, 42, 58, 42, 58, 42]
+/-- `cpe:2.3:a:b:c:d:e:f:notalanguage:*:*:*:*` -/
+def wLang : Str := [99, 112, 101, 58, 50, 46, 51, 58, 97, 58, 98, 58, 99, 58, 100, 58, 101, 58, 102, 58, 110, 111, 116, 97, 108, 97, 110, 103, 117, 97, 103, 101, 58, 42, 58, 42, 58, 42, 58, 42]
+/-- `notalanguage` -/
+def wNotALang : Str := [110, 111, 116, 97, 108, 97, 110, 103, 117, 97, 103, 101]
+
+/-- Fewer than eleven components are accepted. -/
+theorem unbind_lenient_fewer_components_counterexample :
+    (unbindFS wFewer).isSome = true ∧ ¬ CpeSpec.FormattedString wFewer := by
+  refine ⟨by decide, fun h => ?_⟩
+  obtain ⟨part, rest, hsplit, hlen, _⟩ := formattedString_comps _ h
+  have : splitFS wFewer = [segCpe, seg23, [97], [98]] := by decide
+  rw [this] at hsplit
+  simp only [List.cons.injEq, true_and] at hsplit
+  rw [← hsplit.2] at hlen
+  simp at hlen
+
+/-- An empty component is accepted (as unset). -/
+theorem unbind_lenient_empty_component_counterexample :
+    (unbindFS wEmpty).isSome = true ∧
+      ¬ CpeSpec.FormattedString wEmpty := by
+  refine ⟨by decide, fun h => ?_⟩
+  obtain ⟨part, rest, hsplit, _, _, hav, _⟩ := formattedString_comps _ h
+  have : splitFS wEmpty =
+      [segCpe, seg23, [97], [], [99], [42], [42], [42], [42], [42], [42], [42], [42]] := by decide
+  rw [this] at hsplit
+  simp only [List.cons.injEq, true_and] at hsplit
+  exact avString_ne_nil [] (hav [] (by rw [← hsplit.2]; simp)) rfl
+
+/-- Unquoted punctuation is accepted (and quoted by the unbinder). -/
+theorem unbind_lenient_unquoted_punctuation_counterexample :
+    (unbindFS wUnquoted).isSome = true ∧
+      ¬ CpeSpec.FormattedString wUnquoted := by
+  refine ⟨by decide, fun h => ?_⟩
+  obtain ⟨part, rest, hsplit, _, _, hav, _⟩ := formattedString_comps _ h
+  have : splitFS wUnquoted =
+      [segCpe, seg23, [97], [98, 33, 99], [42], [42], [42], [42], [42], [42], [42], [42], [42]] := by decide
+  rw [this] at hsplit
+  simp only [List.cons.injEq, true_and] at hsplit
+  have := avString_strict [98, 33, 99] (hav _ (by rw [← hsplit.2]; simp))
+  revert this; decide
+
+/-- A quoted letter is accepted. -/
+theorem unbind_lenient_quoted_nonpunctuation_counterexample :
+    (unbindFS wQuoted).isSome = true ∧
+      ¬ CpeSpec.FormattedString wQuoted := by
+  refine ⟨by decide, fun h => ?_⟩
+  obtain ⟨part, rest, hsplit, _, _, hav, _⟩ := formattedString_comps _ h
+  have : splitFS wQuoted =
+      [segCpe, seg23, [97], [92, 98], [42], [42], [42], [42], [42], [42], [42], [42], [42]] := by decide
+  rw [this] at hsplit
+  simp only [List.cons.injEq, true_and] at hsplit
+  have := avString_strict [92, 98] (hav _ (by rw [← hsplit.2]; simp))
+  revert this; decide
+
+/-- A value of special characters only is accepted. -/
+theorem unbind_lenient_special_only_counterexample :
+    (unbindFS wSpecial).isSome = true ∧
+      ¬ CpeSpec.FormattedString wSpecial := by
+  refine ⟨by decide, fun h => ?_⟩
+  obtain ⟨part, rest, hsplit, _, _, hav, _⟩ := formattedString_comps _ h
+  have : splitFS wSpecial =
+      [segCpe, seg23, [97], [63, 63], [42], [42], [42], [42], [42], [42], [42], [42], [42]] := by decide
+  rw [this] at hsplit
+  simp only [List.cons.injEq, true_and] at hsplit
+  rcases avString_hasBody [63, 63] (hav _ (by rw [← hsplit.2]; simp)) with h1 | h1
+  · cases h1
+  · revert h1; decide
+
+/-- The language component is not checked. -/
+theorem unbind_lenient_language_counterexample :
+    (unbindFS wLang).isSome = true ∧
+      ¬ CpeSpec.FormattedString wLang := by
+  refine ⟨by decide, fun h => ?_⟩
+  obtain ⟨part, rest, hsplit, _, _, _, hlang⟩ := formattedString_comps _ h
+  have : splitFS wLang =
+      [segCpe, seg23, [97], [98], [99], [100], [101], [102], wNotALang, [42], [42], [42], [42]] := by
+    decide
+  rw [this] at hsplit
+  simp only [List.cons.injEq, true_and] at hsplit
+  have := hlang wNotALang (by rw [← hsplit.2]; rfl)
+  rcases this with h1 | h1 | h1
+  · revert h1; decide
+  · revert h1; decide
+  · revert h1; decide
 
 /-! ## The CPE condition of rhel's matcher -/
 
